@@ -108,11 +108,21 @@ def rule_r2(prog, res) -> None:
     if rs is None:
         raise AnalysisError("C16.R2: RandomsBase.reseed vanished")
     res.touch(rs)
-    st = [x for x in walk_no_nested(rs.node) if isinstance(x, ast.Assign) and any(unparse(t) == "self.rng" for t in x.targets)]
-    ok = False
-    if len(st) == 1 and isinstance(st[0].value, ast.Call) and (dotted(st[0].value.func) or "").endswith("default_rng") and st[0].value.args:
-        if depends_on(rs.node, st[0].value.args[0], lambda y: isinstance(y, ast.Attribute) and unparse(y) == "self.seed"):
-            ok = True
+    # decided on the symbolic store (a helper that builds the generator is looked through): on every path the new
+    # generator is default_rng(<something derived from the seed that is stored / was just given>)
+    from .. import symx as _sx
+
+    rpaths0 = [p for p in _sx.explore(prog, rs, inline=lambda caller, call_, callee: callee.module is caller.module and not callee.is_property) if p.outcome != "raise"]
+    ok = bool(rpaths0)
+    for p in rpaths0:
+        v = p.store.get("self.rng")
+        if not (isinstance(v, ast.Call) and (dotted(v.func) or "").split(".")[-1] == "default_rng" and v.args):
+            ok = False
+            continue
+        seed_now = p.store.get("self.seed")
+        texts = {"self.seed"} | ({unparse(seed_now)} if seed_now is not None else set())
+        if not any(t in unparse(v.args[0]) for t in texts):
+            ok = False
     if ok:
         res.ok("C16.R2", res.site(rs), "self.rng = default_rng(<derived from self.seed>)")
     else:
@@ -336,64 +346,76 @@ def rule_r5(prog, res) -> None:
     box = prog.find_class("BoxRandoms")
     init = box.methods["__init__"]
     res.touch(init)
-    calls = [c for c in calls_in(init) if isinstance(c.func, ast.Attribute) and c.func.attr == "_sky2cylinder"]
-    ok = len(calls) == 2 and all(len(c.args) == 2 and all(isinstance(a, ast.Call) and (dotted(a.func) or "").endswith("deg2rad") for a in c.args) for c in calls)
-    if ok:
-        pairs = [[unparse(a.args[0]) for a in c.args] for c in calls]
-        ok = pairs == [["ra_min", "dec_min"], ["ra_max", "dec_max"]]
-    if ok:
-        res.ok("C16.R5", res.site(init), "window limits are converted deg->rad and passed as (ra, dec) pairs for the min and the max corner")
-    else:
-        res.violation("C16.R5", init, init.node, "window limits are not converted from degrees / not paired as (ra_min, dec_min), (ra_max, dec_max)", key_extra="window-limits")
-    s2c, c2s = box.methods["_sky2cylinder"], box.methods["_cylinder2sky"]
-    res.touch(s2c)
-    res.touch(c2s)
-    from ..norm import NotAffine, Rational, _atom, sym_exec, uf_atom
-    from ..norm import _poly_env as PE
-
-    def ret_forms(m):
-        try:
-            paths = [p for p in sym_exec(m.node.body) if p[2] is not None]
-        except NotAffine:
-            return None
-        if len(paths) != 1 or not isinstance(paths[0][2], ast.Tuple) or len(paths[0][2].elts) != 2:
-            return None
-        return [PE(e, paths[0][1], lambda t: t) for e in paths[0][2].elts]
-
-    f1, f2 = ret_forms(s2c), ret_forms(c2s)
-    if f1 is None or f2 is None:
-        raise AnalysisError("C16.R5: sky<->cylinder maps are not straight-line functions returning a pair")
-    p1, p2 = s2c.param_names()[1:3], c2s.param_names()[1:3]
-    A = lambda n: Rational(_atom(n))  # noqa: E731
-    ok_map = f1[0].equals(A(p1[0])) and f1[1].equals(Rational(uf_atom("sin", A(p1[1])))) and f2[0].equals(A(p2[0])) and f2[1].equals(Rational(uf_atom("arcsin", A(p2[1]))))
-    if ok_map:
-        res.ok("C16.R5", res.site(s2c, "sin / arcsin"), "cylindrical equal-area map y = sin(dec) and its inverse dec = arcsin(y)")
-    else:
-        res.violation("C16.R5", s2c, s2c.node, "the sky<->cylinder maps are not the equal-area pair y = sin(dec) / dec = arcsin(y)", key_extra="cylinder-map")
+    # decided on the symbolic store with every helper of the module looked through (methods or module functions
+    # alike): the four window limits are stored as x = deg2rad(ra), y = sin(deg2rad(dec)) of the matching corner, and
+    # the drawn point is (U(x_min, x_max), arcsin(U(y_min, y_max))) — the cylindrical equal-area map and its inverse
     from .. import symx
 
+    def inl(caller, call_, callee):
+        return callee.module is caller.module and not callee.is_property and callee.name not in ("__call__",)
+
+    ipaths = [p for p in symx.explore(prog, init, inline=inl) if p.outcome != "raise"]
+    if not ipaths:
+        raise AnalysisError("C16.R5: BoxRandoms.__init__ has no completing path")
+    want = {
+        "self.x_min": ("ra_min", False),
+        "self.x_max": ("ra_max", False),
+        "self.y_min": ("dec_min", True),
+        "self.y_max": ("dec_max", True),
+    }
+    params = init.param_names()
+    bad = None
+    for p in ipaths:
+        for key, (par, sine) in want.items():
+            v = p.store.get(key)
+            if v is None:
+                raise AnalysisError(f"C16.R5: BoxRandoms.__init__ does not store {key}")
+            e = v
+            if sine:
+                if not (isinstance(e, ast.Call) and (dotted(e.func) or "").split(".")[-1] == "sin" and len(e.args) == 1):
+                    bad = bad or (key, v)
+                    continue
+                e = e.args[0]
+            if not (isinstance(e, ast.Call) and (dotted(e.func) or "").split(".")[-1] in ("deg2rad", "radians") and len(e.args) == 1 and isinstance(e.args[0], ast.Name) and e.args[0].id == par and par in params):
+                bad = bad or (key, v)
+    if bad is None:
+        res.ok("C16.R5", res.site(init), "window limits stored as x = deg2rad(ra), y = sin(deg2rad(dec)) for the min and the max corner (equal-area cylinder)")
+    else:
+        res.violation(
+            "C16.R5",
+            init,
+            init.node,
+            f"window limit {bad[0]} is stored as {unparse(bad[1])[:60]}: expected {'sin(deg2rad(' + want[bad[0]][0] + '))' if want[bad[0]][1] else 'deg2rad(' + want[bad[0]][0] + ')'} "
+            "(limits not converted from degrees, wrong corner, or not the equal-area map)",
+            key_extra="window-limits",
+        )
     dc = box.methods["_draw_coords"]
     res.touch(dc)
     size_p = dc.param_names()[1]
-    dpaths = [p for p in symx.explore(prog, dc, inline=symx.inline_private_helpers(prog, public={"_cylinder2sky", "_sky2cylinder"})) if p.outcome == "return" and p.value is not None]
+    dpaths = [p for p in symx.explore(prog, dc, inline=inl) if p.outcome == "return" and p.value is not None]
     ok = bool(dpaths)
-    lims = sizes = None
+    shown = None
     for p in dpaths:
         ret = p.value
-        if not (isinstance(ret, ast.Call) and unparse(ret.func) == "self._cylinder2sky" and len(ret.args) == 2):
+        shown = unparse(ret)[:120]
+        if not (isinstance(ret, ast.Tuple) and len(ret.elts) == 2):
             ok = False
             break
-        u = list(ret.args)
+        ra_e, dec_e = ret.elts
+        if not (isinstance(dec_e, ast.Call) and (dotted(dec_e.func) or "").split(".")[-1] == "arcsin" and len(dec_e.args) == 1):
+            ok = False
+            break
+        u = [ra_e, dec_e.args[0]]
         if not all(isinstance(c, ast.Call) and unparse(c.func) == "self.rng.uniform" for c in u):
             ok = False
             break
-        lims = [[unparse(a) for a in c.args[:2]] for c in u]
+        lims = [[unparse(a_) for a_ in c.args[:2]] if len(c.args) >= 2 else [unparse(kwarg(c, "low")), unparse(kwarg(c, "high"))] for c in u]
         sizes = [unparse(c.args[2]) if len(c.args) > 2 else unparse(kwarg(c, "size")) for c in u]
-        ok = ok and lims == [["self.x_min", "self.x_max"], ["self.y_min", "self.y_max"]] and sizes == [size_p, size_p] and len(p.calls("uniform")) == 2
+        ok = ok and lims == [["self.x_min", "self.x_max"], ["self.y_min", "self.y_max"]] and sizes == [size_p, size_p]
     if ok:
-        res.ok("C16.R5", res.site(dc), "x ~ U(x_min, x_max), y ~ U(y_min, y_max), each of the requested size, mapped back with (x, y)")
+        res.ok("C16.R5", res.site(dc), "ra ~ U(x_min, x_max), dec = arcsin(U(y_min, y_max)), each of the requested size")
     else:
-        res.violation("C16.R5", dc, dc.node, f"coordinates are not drawn as uniform(x_min, x_max, n), uniform(y_min, y_max, n) -> _cylinder2sky(x, y) (limits {lims}, sizes {sizes})", key_extra="draw-coords")
+        res.violation("C16.R5", dc, dc.node, f"coordinates are not drawn as (uniform(x_min, x_max, n), arcsin(uniform(y_min, y_max, n))): {shown}", key_extra="draw-coords")
     call = base.methods["__call__"]
     res.touch(call)
     p_ = call.param_names()[1]
@@ -408,7 +430,19 @@ def rule_r5(prog, res) -> None:
     def coord_part(e, i) -> bool:
         return isinstance(e, ast.Subscript) and isinstance(e.slice, ast.Constant) and e.slice.value == i and isinstance(e.value, ast.Call) and (dotted(e.value.func) or "").split(".")[-1] == "_draw_coords"
 
-    if create and all(len(ev.expr.args) >= 2 and coord_part(ev.expr.args[0], 0) and coord_part(ev.expr.args[1], 1) and isinstance(kwarg(ev.expr, "degrees"), ast.Constant) and kwarg(ev.expr, "degrees").value is False for ev in create):
+    def coord_arg(c_, i, name):
+        pos = [a_ for a_ in c_.args if not isinstance(a_, ast.Starred)]
+        return pos[i] if len(pos) > i else kwarg(c_, name)
+
+    if create and all(
+        coord_arg(ev.expr, 0, "ra") is not None
+        and coord_arg(ev.expr, 1, "dec") is not None
+        and coord_part(coord_arg(ev.expr, 0, "ra"), 0)
+        and coord_part(coord_arg(ev.expr, 1, "dec"), 1)
+        and isinstance(kwarg(ev.expr, "degrees"), ast.Constant)
+        and kwarg(ev.expr, "degrees").value is False
+        for ev in create
+    ):
         res.ok("C16.R5", res.site(call, "create"), "chunk created from (ra, dec) in radian")
     else:
         res.violation("C16.R5", call, call.node, "generated coordinates are not stored as (ra, dec) radian", key_extra="call-create")
